@@ -3,6 +3,8 @@ L1: Lean: simplify_word (every word over {σz,σ+,σ−}, any length), Jordan–
     (exhaustive over the admitted site-operator alphabet).
 L2: exact replay of the REAL `simplify_op` on random single- and multi-site words and of
     `table_row_swapped_jw` on all admitted pairs against the Lean model (signs and words).
+    `generate_ladder_operator` symbol lists vs the model `ladder` (hypothesis of `ladder_prod`/`car`), BasisHalfSpin
+    matrices of Z,+,- words vs `wordMat` (hypothesis of `one_site_relations`).
 L3: independent fermionic-matrix oracle for qc_model, swap sequences (search_c17)."""
 import numpy as np
 
@@ -22,7 +24,7 @@ def main():
     run = Run("C17", level="proof")
     quick = run.tier != "thorough"
     rng = np.random.default_rng(run.seed)
-    l1 = run.l1(["RenoVerif/Props/C17.lean"])
+    l1 = run.l1(["RenoVerif/Props/C17.lean", "RenoVerif/Props/C17CAR.lean"])
     if not l1["build_ok"]:
         raise Infra("hand-written Lean library failed to build/audit: " + str(l1.get("bad")) + l1.get("log", "")[-800:])
     from renormalizer.model import Op
@@ -83,6 +85,27 @@ def main():
             reqs.append(f"swap {word_of(a)} {word_of(b)}")
             meta.append(("swap", dict(op1=a, op2=b, symbols=style), None,
                          f"{'-' if coeff == -1 else '+'} {word_of(n1.split_symbol)} {word_of(n2.split_symbol)}"))
+    # ---- ladder operators and site matrices: hypotheses of Props/C17CAR (`car`, `ladder_prod`, `one_site_relations`)
+    from renormalizer.model.h_qc import generate_ladder_operator
+    from renormalizer.model.basis import BasisHalfSpin
+    for norbs in ([1, 2, 3, 5, 8] if quick else [1, 2, 3, 4, 5, 6, 8, 12, 16]):
+        a_ops, ad_ops = generate_ladder_operator(norbs)
+        for j in range(norbs):
+            for dag, op in ((0, a_ops[j]), (1, ad_ops[j])):
+                reqs.append(f"ladder {j} {dag}")
+                impl = " ".join(f"{int(d)}:{word_of([sym])}" for sym, d in zip(op.split_symbol, op.dofs))
+                if complex(op.factor) != 1:
+                    impl += f" factor={op.factor}"
+                meta.append(("ladder", dict(norbs=norbs, j=j, dagger=bool(dag)), None, impl))
+    hs = BasisHalfSpin(0)
+    for w in ["Z", "P", "M", "ZP", "PZ", "ZM", "MZ", "PM", "MP", "ZZ", "PP", "MM", "ZPM", "MZP"]:
+        reqs.append("mat " + w)
+        m = hs.op_mat(" ".join(CH2SYM[c] for c in w))
+        if np.abs(np.asarray(m).imag).max() > 0 or np.abs(m - np.round(m.real)).max() > 0:
+            impl = "non-integer " + repr(np.asarray(m).tolist())
+        else:
+            impl = " ".join(str(int(x)) for x in np.asarray(m.real).ravel())
+        meta.append(("mat", dict(word=w), None, impl))
     replies = common.run_driver("RenoVerif/Driver/C17.lean", reqs)
     # evaluate
     distinct = set()
@@ -105,6 +128,14 @@ def main():
                 run.violation("corr:simplify_op:sign", dict(correspondence="sign of simplify_op", case=case, model=cur_sign, impl=impl),
                               no_input=True)
             cur_sign = 1
+        elif kind in ("ladder", "mat"):
+            distinct.add(req)
+            run.count("tie:" + kind)
+            if rep != impl:
+                ndis += 1
+                run.violation("corr:" + ("generate_ladder_operator" if kind == "ladder" else "BasisHalfSpin.op_mat"),
+                              dict(correspondence="RenoVerif.JW.ladder vs h_qc.generate_ladder_operator" if kind == "ladder"
+                                   else "RenoVerif.JW.wordMat vs BasisHalfSpin.op_mat", case=case, model=rep, impl=impl), no_input=True)
         else:
             distinct.add(req)
             run.sample(dict(kind=kind, request=req, model=rep, impl=impl), limit=4)
@@ -128,8 +159,10 @@ def main():
             run.cov["search_evaluations"] = run.cov["evaluations"]
             run.cov["evaluations"] = ev0 + run.cov["search_evaluations"]
             run.cov["distinct_nontrivial"] = dn0 + run.cov.get("distinct_nontrivial", 0)
-    run.assumptions += ["jw_equals_fock for all orbital counts is not proved in Lean: the equality of the JW model with the fermionic Hamiltonian "
-                        "is established by the independent dense oracle for 1-4 spatial orbitals",
+    run.assumptions += ["Props/C17CAR proves the canonical anticommutation relations of the Jordan-Wigner ladder operators for every orbital "
+                        "count in any ring whose site operators obey the one-site relations and commute across sites; that tensor-product "
+                        "operators on different sites commute, and the step from CAR to equality of the assembled Hamiltonian with the "
+                        "fermionic matrix (universal property of the CAR algebra), are not formalised: the dense oracle covers 1-4 spatial orbitals",
                         "the swap rule is proved as FSWAP conjugation on the two affected sites"]
     return run.finish()
 
